@@ -567,6 +567,10 @@ def run_trio(case):
                         await settle()
                 elif op == "pause":
                     inner.net_pause()
+                elif op == "take":
+                    inner.net_take(step[1])
+                    if not nested:
+                        await settle()
                 elif op == "resume":
                     inner.net_resume()
                     if not nested:
